@@ -256,7 +256,71 @@ func (w *World) timelineIdle() {
 	w.quiesce(2*time.Second, true)
 }
 
+// timelineHealthCongested: health checks on a connection whose peer has stopped reading
+// and whose (one-frame) send buffer is full of the caller's requests: a ping cannot even be
+// queued. Whatever the library makes of that - a failed ping, a broken connection - the
+// connection must not stay up for ever, and nothing may be left hanging once the channel
+// is closed.
+func (w *World) timelineHealthCongested() {
+	g := w.Grid
+	interval := time.Duration(5+scn(10)) * g
+	timeout := time.Duration(1+scn(4)) * g
+	failures := 1 + scn(3)
+	co := w.connOptsBig()
+	co.SendBufferSize = 1 + scn(2)
+	co.HealthChecks = tchannel.HealthCheckOptions{Interval: interval, Timeout: timeout, FailuresToClose: failures}
+	w.linkHook = func(l *Link) {
+		l.SetCapacity(0, 4<<10)
+		l.SetCapacity(1, 4<<10)
+	}
+	x := w.addNode(NodeOpts{Name: "x0", Service: "x", Host: "10.0.3.1", Conn: co})
+	w.describe("health congested interval=%v timeout=%v failuresToClose=%d sendBuffer=%d", interval, timeout, failures, co.SendBufferSize)
+	rs := w.newRawPeer("rawsrv", "10.0.8.1")
+	hp := rs.Listen(6000, func(c *RawConn) {
+		if c.ServerHandshake("10.0.8.1:6000") != nil {
+			return
+		}
+		w.Net.Fired["peer.silent"]++
+		sleep(time.Hour) // never reads again
+	})
+	ctx, cancel := context.WithTimeout(context.Background(), time.Second)
+	_, err := x.Ch.Connect(ctx, hp)
+	cancel()
+	if err != nil {
+		w.violate("C19", "connect", "connect to a conforming raw server failed: %v", err)
+		return
+	}
+	// requests nobody reads fill the socket and the send buffer
+	var fs []func()
+	for i := 0; i < 3+scn(3); i++ {
+		r := w.newCall(CallSpec{From: x, To: hp, Service: "x", Via: "to-raw-server", Timeout: time.Duration(20+scn(60)) * g, Len3: 20000 + scn(100000), Rs2: -1, Rs3: -1, NoCheck: true})
+		fs = append(fs, func() { w.Call(r) })
+	}
+	w.tasks(fs...) // (every call has run into its deadline by now: a graceful close has nothing left to wait for)
+	w.probe("ops.done")
+	sleep(time.Duration(failures+4) * interval)
+	w.eval("C19.health-decision")
+	closed := false
+	for _, l := range w.Net.Links {
+		if l.A.Owner == x.Name && l.CloseEv[0] != 0 {
+			closed = true
+		}
+	}
+	// (with a peer that reads nothing the writer goroutine can sit in a socket write for
+	// ever - no write deadline - and it is the writer that closes the socket: what is judged
+	// is the library's own view, the connection gone from the channel's books)
+	st := x.Ch.IntrospectState(&tchannel.IntrospectionOptions{IncludeEmptyPeers: true})
+	if !closed && st.NumConnections != 0 {
+		w.violate("C19", "unhealthy-connection-kept", "interval=%v timeout=%v failuresToClose=%d: the peer reads nothing, the send buffer (%d) is full, every call has timed out and %d more health-check intervals have passed: the channel still tracks %d connection(s)", interval, timeout, failures, co.SendBufferSize, failures+4, st.NumConnections)
+	}
+	w.quiesce(2*time.Second, true)
+}
+
 func (w *World) timelineHealth() {
+	if scnChance(1, 4) {
+		w.timelineHealthCongested()
+		return
+	}
 	g := w.Grid
 	interval := time.Duration(2+scn(10)) * g
 	timeout := time.Duration(1+scn(8)) * g
